@@ -87,6 +87,35 @@ def utility_values(util, case, seed2):
     return out
 
 
+def edited_in_place_values(I, case, seed2, rng):
+    """the caller's arrays are edited IN PLACE between two calls on one utility object (a label repaired, a validation label changed): the second answer must be
+    the answer a fresh utility object gives for fresh arrays with the new CONTENTS - an answer remembered for 'the same array objects' would be stale"""
+    import warnings
+    X, y, Xv, yv = np.array(case["X"], dtype=float), np.array(case["y"]), np.array(case["Xv"], dtype=float), np.array(case["yv"])
+    util = worker.make_utility(I, case)
+    out = []
+    with warnings.catch_warnings():
+        warnings.simplefilter("ignore")
+        try:
+            first = (float(util.null_score(X, y, Xv, yv)).hex(), float(util.mean_score(X, y, Xv, yv, maxiter=9, seed=seed2)).hex())
+            edits = []
+            ks = [k for k in range(len(y)) if (y == y[k]).sum() > 1]
+            if ks:
+                k = rng.choice(ks)
+                y[k] = rng.choice([c for c in set(y.tolist()) if c != y[k]])
+                edits.append(("y_train", k))
+            kv = rng.randrange(len(yv))
+            yv[kv] = rng.choice(sorted(set(y.tolist())))
+            edits.append(("y_test", kv))
+            X[rng.randrange(len(X)), 0] += 3.0
+            second = (float(util.null_score(X, y, Xv, yv)).hex(), float(util.mean_score(X, y, Xv, yv, maxiter=9, seed=seed2)).hex())
+            fresh_u = worker.make_utility(I, case)
+            fresh = (float(fresh_u.null_score(X.copy(), y.copy(), Xv.copy(), yv.copy())).hex(), float(fresh_u.mean_score(X.copy(), y.copy(), Xv.copy(), yv.copy(), maxiter=9, seed=seed2)).hex())
+        except Exception as e:  # noqa
+            return None
+    return dict(first=first, second_same_objects_after_in_place_edits=second, fresh_objects_with_the_edited_contents=fresh, edits=edits)
+
+
 def scramble_globals(k):
     import random
     np.random.seed(k)
@@ -193,6 +222,13 @@ def run(ctx):
             if "share_key" in case:
                 asked.append(("the utility object the scorings above shared", utility_values(worker.SHARED[case["share_key"]], case, seed2)))
             ctx.dist["utility_values_compared"] += 1
+            ed = edited_in_place_values(I, case, seed2, rng)
+            if ed is not None:
+                ctx.dist["utility_values_after_in_place_edit_compared"] += 1
+                if ed["second_same_objects_after_in_place_edits"] != ed["fresh_objects_with_the_edited_contents"]:
+                    ctx.mismatch("utility.null_score / mean_score answered for array OBJECTS it had seen before although their contents were edited in place (a remembered "
+                                 "answer): a scoring run after a data repair would then depend on what was scored before", case, impl=ed,
+                                 spec="the values a fresh utility object returns for the edited contents")
             if any(v != asked[0][1] for _, v in asked[1:]):
                 ctx.mismatch("utility.null_score / mean_score return different values for equal arguments (same data, same maxiter, same seed) - the values the "
                              "truncation of montecarlo, and so its reproducibility from the seed, rests on", case, impl=asked,
